@@ -536,6 +536,25 @@ func (m *monitor) run() {
 					m.fail("R7-commit-ts-gt-issued", sig, "txn %d: commit ts %d does not exceed %d, which the oracle had issued before Commit was called", ts, creq.CommitVersion, before)
 				}
 			}
+			// the commit timestamps the store chooses (one-phase commit: in the prewrite answer; async commit: the
+			// greatest min_commit_ts, reported by CommitTS()) are bound by the same sentence
+			for _, p := range v.prewrites {
+				if p.Resp == nil || p.Resp.Resp == nil || !p.Executed {
+					continue
+				}
+				if pr, ok := p.Resp.Resp.(*kvrpcpb.PrewriteResponse); ok && pr.GetOnePcCommitTs() != 0 {
+					m.hit("R7-commit-ts-gt-issued")
+					if pr.GetOnePcCommitTs() <= before {
+						m.fail("R7-commit-ts-gt-issued", sig, "txn %d: the one-phase commit ts %d does not exceed %d, which the oracle had issued before Commit was called (min_commit_ts of the request: %d)", ts, pr.GetOnePcCommitTs(), before, p.Req.Req.(*kvrpcpb.PrewriteRequest).MinCommitTs)
+					}
+				}
+			}
+			if h.CommitErr == "" && h.CommitTS != 0 && !h.Cut {
+				m.hit("R7-commit-ts-gt-issued")
+				if h.CommitTS <= before {
+					m.fail("R7-commit-ts-gt-issued", sig, "txn %d: CommitTS() = %d does not exceed %d, which the oracle had issued before Commit was called", ts, h.CommitTS, before)
+				}
+			}
 		}
 		// R8: primary is one of the locked mutations; async secondaries; 1PC only with one request
 		if len(v.prewrites) > 0 && v.primary != nil && len(allKeys) > 0 {
